@@ -123,7 +123,7 @@ func parseCPUList(s string) ([]int, error) {
 			continue
 		}
 		lo, hi, isRange := strings.Cut(part, "-")
-		a, err := strconv.Atoi(lo)
+		a, err := parseCPUNum(lo)
 		if err != nil {
 			return nil, fmt.Errorf("bad cpulist entry %q: %w", part, err)
 		}
@@ -131,7 +131,7 @@ func parseCPUList(s string) ([]int, error) {
 			out = append(out, a)
 			continue
 		}
-		b, err := strconv.Atoi(hi)
+		b, err := parseCPUNum(hi)
 		if err != nil {
 			return nil, fmt.Errorf("bad cpulist entry %q: %w", part, err)
 		}
@@ -143,6 +143,13 @@ func parseCPUList(s string) ([]int, error) {
 		}
 	}
 	return out, nil
+}
+
+// parseCPUNum reads a cpu number: decimal digits only, as the kernel's cpulist parser. strconv.Atoi would also
+// take a sign.
+func parseCPUNum(s string) (int, error) {
+	n, err := strconv.ParseUint(s, 10, 31)
+	return int(n), err
 }
 
 func readIntFile(path string) (int, error) {
